@@ -163,6 +163,46 @@ def wide(count, seed, maxw=140):
         yield Table(w, h, cols, f'tall{c}:{w}x{h}:s{style}')
 
 
+def widesquare(seed, big=False):
+    """Tables with many rows AND many columns (no lattice is ever built on these): contranominal scales,
+    where every row/column is distinguishable, dense random tables and shifted diagonals."""
+    rng = random.Random(seed * 31 + 5)
+    sizes = [34, 65, 70, 129] + ([200, 260] if big else [])
+    for n in sizes:
+        yield Table(n, n, [[j for j in range(1, n + 1) if j != i + 1] for i in range(n)], f'widecontra{n}')
+        yield Table(n, n, [[j for j in range(1, n + 1) if j != n - i] for i in range(n)], f'wideanti{n}')
+    shapes = [(40, 90), (90, 40), (66, 66), (35, 131)] + ([(131, 35), (150, 150)] if big else [])
+    for n, m in shapes:
+        for dens in (0.92, 0.5):
+            rows = [[j for j in range(1, m + 1) if rng.random() < dens] for _ in range(n)]
+            yield Table(n, m, rows, f'widerand{n}x{m}:{dens}')
+
+
+def boundary_positions(n):
+    pos = {1, 2, n - 1, n}
+    for bnd in (30, 31, 32, 33, 34, 35, 59, 60, 61, 62, 63, 64, 65, 66, 126, 127, 128, 129, 130, 192, 193, 256, 257):
+        pos.add(bnd)
+    return sorted(p for p in pos if 1 <= p <= n)
+
+
+def wide_subsets(n, rng, count=12):
+    """Query subsets for wide axes: empty, full, boundary singletons and their complements, dense/sparse random."""
+    full = list(range(1, n + 1))
+    out = [[], full]
+    bp = boundary_positions(n)
+    for p in bp:
+        out.append([p])
+        out.append([q for q in full if q != p])
+    for _ in range(count):
+        dens = rng.choice((0.05, 0.5, 0.9, 0.97))
+        out.append([q for q in full if rng.random() < dens] or [rng.randint(1, n)])
+    for _ in range(4):      # a run starting / ending at a boundary
+        a = rng.choice(bp)
+        b = rng.randint(a, n)
+        out.append(list(range(a, b + 1)))
+    return out
+
+
 def labels_for(n, m, variant=0):
     """Object / property labels (unique, disjoint, no whitespace) whose sort order differs from position order."""
     if variant % 3 == 0:        # reversed alphabetical
